@@ -9332,7 +9332,10 @@ class SVG(Group):
                             values[SVG_ATTR_TRANSFORM] += " " + viewport_transform
                         else:
                             values[SVG_ATTR_TRANSFORM] = viewport_transform
-                        values["viewport_transform"] = values[SVG_ATTR_TRANSFORM]
+                        # Only the viewport transforms, not the transforms of the ancestors, scale a non-scaling stroke.
+                        values["viewport_transform"] = (
+                            values.get("viewport_transform", "") + " " + viewport_transform
+                        ).strip()
                         if s.viewbox.width is not None and s.viewbox.height is not None:
                             # A malformed viewBox establishes no user space: the viewport size stays in force.
                             width, height = s.viewbox.width, s.viewbox.height
